@@ -81,11 +81,26 @@ Definition tick (st : state) := mkState (env st) (heap st) (next_blk st) (tensor
 
 (** * Values and types *)
 
+(** A stored value of the right shape for a slot of type [t]: what [coerce] produces.  Reads check
+    it dynamically, so the theorems about the machine need no invariant on the initial state. *)
+Definition typed (t : ty) (v : value) : bool :=
+  match t, v with
+  | TFloat, VFloat f => is_canon f
+  | TInteger, VInt z => in_int32 z
+  | TBoolean, VBool _ => true
+  | TPointer TTensor, VTensor _ => true
+  | TPointer TInteger, VPtr _ _ => true
+  | TPointer TFloat, VPtr _ _ => true
+  | TPointer TInteger, VNull => true
+  | TPointer TFloat, VNull => true
+  | _, _ => false
+  end.
+
 Definition coerce (t : ty) (v : value) : res value :=
   match t, v with
   | TFloat, VInt z => Ok (VFloat (fcanon (Z2F z)))
-  | TFloat, VFloat f => Ok v
-  | TInteger, VInt z => Ok v
+  | TFloat, VFloat f => if is_canon f then Ok v else Err EIllTyped
+  | TInteger, VInt z => if in_int32 z then Ok v else Err EIllTyped
   | TBoolean, VBool b => Ok v
   | TPointer TTensor, VTensor _ => Ok v
   | TPointer TInteger, VPtr _ _ => Ok v
@@ -126,7 +141,8 @@ Definition load (st : state) (blk : positive) (off : Z) : res value :=
       if negb (b_live b) then Err EFreed
       else if (off <? 0) || (b_len b <=? off) then Err EOutOfBounds
       else match PM.find (key off) (b_cells b) with
-           | Some v => Ok v
+           | Some v => if typed (if b_float b then TFloat else TInteger) v then Ok v
+                       else Err EIllTyped
            | None => Err EUninitialised
            end
   end.
@@ -190,6 +206,9 @@ Definition realloc (st : state) (old : value) (t : ty) (n : Z) : res (state * va
 (** * Expressions (pure: allocation forms are only meaningful as the right-hand side of an
       assignment, see [eval_rhs]) *)
 
+Definition is_ptr (v : value) : bool :=
+  match v with VPtr _ _ => true | VNull => true | _ => false end.
+
 Definition tensor_of (st : state) (t : positive) : res tensor_s :=
   match PM.find t (tensors st) with Some x => Ok x | None => Err EIllFormed end.
 
@@ -201,12 +220,17 @@ Definition index_value (st : state) (v : value) (i : value) : res (value * list 
   | VPtr blk o, VInt n => do x <- load st blk (o + n); Ok (x, [ELoad blk (o + n)])
   | VDims t, VInt n =>
       do ts <- tensor_of st t;
-      match nthZ_opt (t_dims ts) n with Some d => Ok (VInt d, []) | None => Err EOutOfBounds end
+      match nthZ_opt (t_dims ts) n with
+      | Some d => do d' <- chk32 d; Ok (VInt d', [])
+      | None => Err EOutOfBounds
+      end
   | VIndices t, VInt n => Ok (VLevel t n, [])
   | VLevel t l, VInt j =>
       do ts <- tensor_of st t;
       match nthZ_opt (t_idx ts) l with
-      | Some (p, c) => if j =? 0 then Ok (p, []) else if j =? 1 then Ok (c, []) else Err EOutOfBounds
+      | Some (p, c) =>
+          if negb (is_ptr p && is_ptr c) then Err EIllTyped
+          else if j =? 0 then Ok (p, []) else if j =? 1 then Ok (c, []) else Err EOutOfBounds
       | None => Err EOutOfBounds
       end
   | _, _ => Err EIllTyped
@@ -217,7 +241,8 @@ Definition attribute_value (st : state) (v : value) (a : string) : res value :=
   | VTensor t =>
       if String.eqb a "dimensions" then Ok (VDims t)
       else if String.eqb a "indices" then Ok (VIndices t)
-      else if String.eqb a "vals" then do ts <- tensor_of st t; Ok (t_vals ts)
+      else if String.eqb a "vals" then
+        do ts <- tensor_of st t; if is_ptr (t_vals ts) then Ok (t_vals ts) else Err EIllTyped
       else Err EIllFormed
   | _ => Err EIllTyped
   end.
@@ -236,7 +261,7 @@ Fixpoint eval (st : state) (e : expr) {struct e} : res (value * list event) :=
   match e with
   | Var x =>
       match lookup x (env st) with
-      | Some (_, Some v) => Ok (v, [])
+      | Some (t, Some v) => if typed t v then Ok (v, []) else Err EIllTyped
       | _ => Err EUnbound
       end
   | AttributeAccess tgt a =>
@@ -320,9 +345,6 @@ Fixpoint set_nth {A} (l : list A) (n : nat) (x : A) : option (list A) :=
   | _ :: r, O => Some (x :: r)
   | a :: r, S k => match set_nth r k x with Some r' => Some (a :: r') | None => None end
   end.
-
-Definition is_ptr (v : value) : bool :=
-  match v with VPtr _ _ => true | VNull => true | _ => false end.
 
 Definition assign (st : state) (l : loc) (v : value) : res (state * list event) :=
   match l with
